@@ -763,7 +763,8 @@ Lemma route_and_call_shape rt st ev st' r :
   route_and_call rt st = (ev, st', r) ->
   exists evR, ev = EvRouted :: evR /\ forallb mid_event evR = true /\ count is_handler evR <= 1.
 Proof.
-  unfold route_and_call. destruct rt as [[h|]|allow|rh h].
+  unfold route_and_call. destruct rt as [[h|]|allow|rh h|j];
+    [| | | |intros H; inversion H; subst; exists []; repeat split; unfold count; simpl; lia].
   - destruct (run_prog h st) as [st1 r1]. intros H; inversion H; subst.
     exists [EvHandler]. repeat split. unfold count; simpl; lia.
   - intros H; inversion H; subst. exists []. repeat split. unfold count; simpl; lia.
